@@ -142,7 +142,7 @@ def run(rep: Report, prog: Program, tier: str) -> None:
 
     n_cases = 0
     for ordered, (mr, mplt), label, proto in itertools.product(
-            [True, False], [(None, None), (0, None), (5, None), (None, 1), (None, 700)], ["", "chat", "héllo ✓"], ["", "ö-proto"]):
+            [True, False], [(None, None), (0, None), (5, None), (None, 0), (None, 1), (None, 700), (65535, None), (None, 65535)], ["", "chat", "héllo ✓"], ["", "ö-proto"]):
         n_cases += 1
         ch = SimpleNamespace(id=7, ordered=ordered, maxRetransmits=mr, maxPacketLifeTime=mplt, label=label, protocol=proto)
         desc = f"ordered={ordered} maxRetransmits={mr} maxPacketLifeTime={mplt} label={label!r} protocol={proto!r}"
